@@ -369,6 +369,10 @@ rfbNewTCPOrUDPClient(rfbScreenInfoPtr rfbScreen,
 #ifndef FUZZING_BUILD_MODE_UNSAFE_FOR_PRODUCTION
       if(!rfbSetNonBlocking(sock)) {
 	rfbCloseSocket(sock);
+	/* nothing else refers to the record yet: give back what was taken above */
+	cl->scaledScreen->scaledScreenRefCount--;
+	free(cl->host);
+	free(cl);
 	return NULL;
       }
 
